@@ -129,6 +129,21 @@ func (m Mutation) String() string { return fmt.Sprintf("%s → %s", m.Kind, Hex(
 // Mutate is the format-aware mutator: lenFields are (offset,width) pairs of
 // big-endian length-prefix fields inside valid (may be nil).
 func Mutate(t *rapid.T, valid []byte, lenFields [][2]int, label string) Mutation {
+	m := mutate(t, valid, lenFields, label)
+	// exact capacity: b[:n] with len(b) < n <= cap(b) does not panic in Go, so a truncated
+	// input must not keep the backing array of the longer valid encoding
+	m.Out = Clip(m.Out)
+	return m
+}
+
+// Clip returns a copy of b whose capacity equals its length.
+func Clip(b []byte) []byte {
+	o := make([]byte, len(b))
+	copy(o, b)
+	return o
+}
+
+func mutate(t *rapid.T, valid []byte, lenFields [][2]int, label string) Mutation {
 	n := len(valid)
 	cp := func() []byte { return append([]byte{}, valid...) }
 	kinds := []string{"bitflip", "truncate", "append", "window", "empty", "onebyte", "len±1", "len±16", "random-samelen", "double", "zeros", "ones"}
